@@ -1,7 +1,9 @@
 package h
 
 import (
+	"context"
 	"fmt"
+	"net"
 	"sync/atomic"
 	"time"
 
@@ -57,10 +59,30 @@ type Cluster struct {
 	QS      *QSpec
 }
 
+// DialOpts returns the gRPC dial options of the harness: plaintext, and a dialer whose connections are closed with
+// SO_LINGER 0 (RST instead of FIN). Thousands of short-lived clusters would otherwise leave tens of thousands of
+// TIME-WAIT sockets behind and exhaust the ephemeral port range for the checks that run next.
+func DialOpts() []grpc.DialOption {
+	return []grpc.DialOption{
+		grpc.WithTransportCredentials(insecure.NewCredentials()),
+		grpc.WithContextDialer(func(ctx context.Context, addr string) (net.Conn, error) {
+			var d net.Dialer
+			c, err := d.DialContext(ctx, "tcp", addr)
+			if err != nil {
+				return nil, err
+			}
+			if tc, ok := c.(*net.TCPConn); ok {
+				tc.SetLinger(0)
+			}
+			return c, nil
+		}),
+	}
+}
+
 // MgrOptions returns the manager options for this cluster's settings.
 func (c *Cluster) MgrOptions() []gorums.ManagerOption {
 	o := c.Opt
-	dial := []grpc.DialOption{grpc.WithTransportCredentials(insecure.NewCredentials())}
+	dial := DialOpts()
 	if o.Block {
 		dial = append(dial, grpc.WithBlock())
 	}
